@@ -301,7 +301,7 @@ func TestReplay(t *testing.T) {
 					t.Fatalf("%s: %v", path, err)
 				}
 				st.Rounds *= 5
-				if m := runStress(&st); m != "" {
+				if m := runStress(&st); m != "" && m != inconclusive {
 					fmt.Printf("REPLAY-FAIL property=%s file=%s\n%s\n", id, path, m)
 					t.Errorf("%s: %s", path, m)
 				} else {
